@@ -284,12 +284,12 @@ func MakeBigSizeRecord[T constraintUint32Or64](typ Type, val *T) Record {
 	case *uint32:
 		sizeFunc = SizeBigSize(val)
 		encoder = EBigSize
-		decoder = DBigSize
+		decoder = dBigSizeRecord
 
 	case *uint64:
 		sizeFunc = SizeBigSize(val)
 		encoder = EBigSize
-		decoder = DBigSize
+		decoder = dBigSizeRecord
 
 	default:
 		panic(fmt.Sprintf("unknown supported compact type: %T", val))
